@@ -59,7 +59,7 @@ EncodeJSONOK(e) ==
   FlagOpen(o) \/
   /\ e.post = o /\ e.prevIntact
   /\ (Valid(o) => /\ e.encOK /\ e.wf /\ JsonFormatOKx(o, e.doc, ExtraMembers(o))
-                   /\ e.vencOK /\ e.vencEq
+                   /\ e.vencOK /\ e.vencEq /\ e.evJsonEq
                    /\ e.redec.ok /\ e.redec.obj = o /\ e.regetEq
                    /\ LET d == DispatchJSON(RegOf(e), e.doc) IN d.r = "ok" /\ d.e.impl = e.redec.impl
                    /\ e.crossOK /\ e.crossEq)
